@@ -1,5 +1,11 @@
-(* Bulk.v — model of HandleBulkBody (pkg/es/writer/esBulkHandler.go:121-285) and
-   of the specification vocabulary of C15.  Definitions only.
+(* Bulk.v — model of HandleBulkBody (pkg/es/writer/esBulkHandler.go) and of the
+   specification vocabulary of C15.  Definitions only.
+
+   [loop]/[handle] follow the code AFTER the fix "bulk response accounting"
+   (fixes/C15-bulk-response-accounting.diff): the loop stops only at the end of the
+   body, maxRecordSizeExceeded is reset for every action, every failed item sets
+   overallError.  [loop_prefix]/[handle_prefix] at the end of the file are the code
+   BEFORE that fix, kept as documentation for the _refuted theorems.
 
    A request body is a byte string; [utils.ReadLine] cuts it at '\n'.  The model
    works on the list of SEGMENTS of the body (the pieces between the '\n's: a
@@ -91,34 +97,35 @@ Definition write_doc (idx : N) (d : line) (s : st) : st :=
     else set_success false s1
   else set_oversize true (set_success false s).
 
-(* l.236-257: the response item of this action *)
+(* the response item of this action: any failed item sets overallError *)
 Definition emit (s : st) : st :=
   if negb (success s) then
-    if oversize s then push_item 413 s
+    if oversize s then push_item 413 (set_overall true s)
     else push_item 400 (set_overall true s)
   else push_item 201 (set_atleast true s).
 
-(* l.160-258: the ReadLine loop *)
+(* the ReadLine loop.  [s0] is the state after "inCount++; maxRecordSizeExceeded = false". *)
 Fixpoint loop (b : list line) (s : st) : st :=
   match b with
-  | [] => s                                          (* ReadLine(empty): rest empty -> break *)
+  | [] => s                                          (* ReadLine(empty): line and rest empty -> break *)
   | a :: rem =>
-    if buf_empty rem then s else                     (* l.162: break BEFORE inCount++ *)
+    if (l_len a =? 0) && buf_empty rem then s else   (* break only at the end of the body *)
+    let s0 := set_oversize false s in
     match extract_action a with
     | INDEX | CREATE =>
       match rem with
-      | [] => s
+      | [] => emit (set_success false s0)            (* ReadLine(empty) = (empty, empty): "expected another line" *)
       | d :: rem' =>
-        if (l_len d =? 0) && buf_empty rem'          (* l.178 "expected another line" *)
-        then loop rem' (emit (set_success false s))
-        else loop rem' (emit (write_doc (l_idx a) d s))
+        if (l_len d =? 0) && buf_empty rem'          (* "expected another line" *)
+        then loop rem' (emit (set_success false s0))
+        else loop rem' (emit (write_doc (l_idx a) d s0))
       end
     | UPDATE =>
       match rem with
-      | [] => s
-      | _ :: rem' => loop rem' (emit (set_success false s))   (* l.226-231 *)
+      | [] => emit (set_success false s0)
+      | _ :: rem' => loop rem' (emit (set_success false s0))
       end
-    | DELETE => loop rem (emit (set_success false s))         (* default: l.233 *)
+    | DELETE => loop rem (emit (set_success false s0))        (* default *)
     end
   end.
 
@@ -141,15 +148,13 @@ Definition handle (store_ok : N -> bool) (b : list line) : resp :=
 
 (* ================= specification vocabulary (independent of the loop) ================= *)
 
-(* The lines of a body: its segments without the empty piece after a final '\n'. *)
+(* The lines of a body: its segments up to the end of the body, where the end is the
+   empty piece after the final '\n', preceded by at most one blank line (a body that
+   ends in "\n\n" has the same lines as the one that ends in "\n"). *)
 Fixpoint body_lines (b : list line) : list line :=
   match b with
   | [] => []
-  | l :: r =>
-    match r with
-    | [] => if l_len l =? 0 then [] else [l]
-    | _ :: _ => l :: body_lines r
-    end
+  | l :: r => if (l_len l =? 0) && buf_empty r then [] else l :: body_lines r
   end.
 
 (* The bulk grammar: index/create/update are followed by their document line (if the
@@ -197,16 +202,47 @@ Definition has_doc (a : action) : bool :=
 Definition expected_status (a : action) : N :=
   if act_ok a then 201 else if act_oversize a then 413 else 400.
 
-(* guards *)
-Fixpoint ends_with_doc (acts : list action) : bool :=
-  match acts with
-  | [] => true
-  | a :: r => match r with [] => has_doc a | _ :: _ => ends_with_doc r end
-  end.
-Definition no_oversize (acts : list action) : bool :=
-  forallb (fun a => negb (act_oversize a)) acts.
+(* guard: every index named in the request accepts its batch *)
 Definition stores_ok (store_ok : N -> bool) (acts : list action) : bool :=
   forallb (fun a => store_ok (act_index a)) acts.
 
 Definition created (st : N) : bool := st =? 201.
 Definition key_eqb (p q : N * N) : bool := (fst p =? fst q) && (snd p =? snd q).
+
+(* ================= the code BEFORE the fix (documentation only) =================
+   l.160-258 of the pre-fix file: the loop broke as soon as nothing followed the
+   action line (before inCount++), maxRecordSizeExceeded was never reset, and the
+   413 branch did not set overallError. *)
+Definition emit_prefix (s : st) : st :=
+  if negb (success s) then
+    if oversize s then push_item 413 s
+    else push_item 400 (set_overall true s)
+  else push_item 201 (set_atleast true s).
+
+Fixpoint loop_prefix (b : list line) (s : st) : st :=
+  match b with
+  | [] => s
+  | a :: rem =>
+    if buf_empty rem then s else
+    match extract_action a with
+    | INDEX | CREATE =>
+      match rem with
+      | [] => s
+      | d :: rem' =>
+        if (l_len d =? 0) && buf_empty rem'
+        then loop_prefix rem' (emit_prefix (set_success false s))
+        else loop_prefix rem' (emit_prefix (write_doc (l_idx a) d s))
+      end
+    | UPDATE =>
+      match rem with
+      | [] => s
+      | _ :: rem' => loop_prefix rem' (emit_prefix (set_success false s))
+      end
+    | DELETE => loop_prefix rem (emit_prefix (set_success false s))
+    end
+  end.
+
+Definition handle_prefix (store_ok : N -> bool) (b : list line) : resp :=
+  let s := loop_prefix b init in
+  mkResp (items s) (overall s) (processed s) (negb (atleast s))
+         (filter (fun p => store_ok (fst p)) (ples s)).
